@@ -89,9 +89,9 @@ def main(argv=None):
     for k in sorted(known_hit):
         print("KNOWN-FINDING: property=%s %s [key=%s]" % (prop, findings[k], k))
     stale = sorted(set(findings) - set(known_hit))
-    for k in stale:
-        # listed but not observed in this tier's bounds: say so, it suppresses nothing
-        print("note: listed finding not observed in this run (outside this tier's cells?): %s" % k)
+    if stale:
+        # listed but not observed within this run's cells: they suppress nothing
+        print("note: %d listed finding(s) were not observed in this run (outside this tier's cells), e.g. %s" % (len(stale), stale[0]))
 
     rdir = os.path.join(os.environ.get("VERIF_OUT_DIR", HERE), "replays", prop)
     lines = []
